@@ -12,10 +12,110 @@ use serde::{Deserialize, Serialize};
 use std::io::{self, Read, Write};
 use twofloat::TwoFloat;
 
-#[derive(Serialize)]
+#[derive(Serialize, Clone, Copy)]
 struct RefSer {
     hi: f64,
     lo: f64,
+}
+
+// ---------------------------------------------------------------- host structures
+//
+// A TwoFloat rarely travels alone: it sits inside user structs, options,
+// collections, flattened or tagged. These hosts put serde's own buffering
+// deserializers (Content / FlatMap / tagged-content) between the data format
+// and twofloat's visitor — further real implementations of the seam.
+
+#[derive(Clone, Copy, Debug, Serialize, Deserialize, PartialEq, Eq, Default)]
+pub enum Host {
+    #[default]
+    Bare,
+    Flatten,
+    Untagged,
+    Tagged,
+    Opt,
+    VecOf,
+    MapOf,
+    Tuple,
+}
+
+pub const HOSTS: [Host; 8] = [Host::Bare, Host::Flatten, Host::Untagged, Host::Tagged, Host::Opt, Host::VecOf, Host::MapOf, Host::Tuple];
+
+impl Host {
+    pub fn name(self) -> &'static str {
+        match self {
+            Host::Bare => "bare",
+            Host::Flatten => "flatten",
+            Host::Untagged => "untagged",
+            Host::Tagged => "internally_tagged",
+            Host::Opt => "option",
+            Host::VecOf => "vec",
+            Host::MapOf => "btreemap",
+            Host::Tuple => "tuple",
+        }
+    }
+}
+
+#[derive(Serialize, Deserialize)]
+struct Flat<T> {
+    id: u32,
+    #[serde(flatten)]
+    v: T,
+}
+
+#[derive(Serialize, Deserialize)]
+#[serde(untagged)]
+enum Unt<T> {
+    T(T),
+    F(f64),
+    S(String),
+}
+
+#[derive(Serialize, Deserialize)]
+#[serde(tag = "kind")]
+enum Tag<T> {
+    Two(T),
+    Other { x: i32 },
+}
+
+fn host_to_string<T: Serialize + Copy>(h: Host, v: T, w: T) -> serde_json::Result<String> {
+    match h {
+        Host::Bare => serde_json::to_string(&v),
+        Host::Flatten => serde_json::to_string(&Flat { id: 7, v }),
+        Host::Untagged => serde_json::to_string(&Unt::T(v)),
+        Host::Tagged => serde_json::to_string(&Tag::Two(v)),
+        Host::Opt => serde_json::to_string(&Some(v)),
+        Host::VecOf => serde_json::to_string(&vec![v, w]),
+        Host::MapOf => {
+            let mut m = std::collections::BTreeMap::new();
+            m.insert("a".to_string(), v);
+            m.insert("b".to_string(), w);
+            serde_json::to_string(&m)
+        }
+        Host::Tuple => serde_json::to_string(&(v, w)),
+    }
+}
+
+/// Deserialize the host and return the records found inside it.
+fn host_from<'de, T: Deserialize<'de>, D: serde::Deserializer<'de>>(h: Host, d: D) -> Result<Vec<T>, D::Error> {
+    Ok(match h {
+        Host::Bare => vec![T::deserialize(d)?],
+        Host::Flatten => vec![Flat::<T>::deserialize(d)?.v],
+        Host::Untagged => match Unt::<T>::deserialize(d)? {
+            Unt::T(t) => vec![t],
+            _ => vec![],
+        },
+        Host::Tagged => match Tag::<T>::deserialize(d)? {
+            Tag::Two(t) => vec![t],
+            _ => vec![],
+        },
+        Host::Opt => Option::<T>::deserialize(d)?.into_iter().collect(),
+        Host::VecOf => Vec::<T>::deserialize(d)?,
+        Host::MapOf => std::collections::BTreeMap::<String, T>::deserialize(d)?.into_values().collect(),
+        Host::Tuple => {
+            let (a, b) = <(T, T)>::deserialize(d)?;
+            vec![a, b]
+        }
+    })
 }
 
 // ---------------------------------------------------------------- writer side
@@ -231,6 +331,38 @@ pub fn execute_write(c: &JsonWriteCase) -> LegReport {
             }
             Ok(Err(e)) => rep.violations.push(viol("SER_SPURIOUS_ERR", format!("to_value failed: {e}"))),
             Err(msg) => rep.violations.push(viol("PANIC", format!("to_value panicked: {msg}"))),
+        }
+        // the value embedded in host structures (flatten, tagged and untagged enums, Option, Vec, map,
+        // tuple): serde's own buffering (de)serializers sit between serde_json and twofloat here
+        let ideal_reader = ReaderPlan::default();
+        for h in HOSTS {
+            if h == Host::Bare {
+                continue;
+            }
+            let want = host_to_string(h, refv, refv).unwrap_or_default();
+            match guarded(|| host_to_string(h, x, x)) {
+                Err(msg) => rep.violations.push(viol("PANIC", format!("serialize inside {} panicked: {msg}", h.name()))),
+                Ok(Err(e)) => rep.violations.push(viol("SER_SPURIOUS_ERR", format!("serialize inside {} failed: {e}", h.name()))),
+                Ok(Ok(text)) => {
+                    if text != want {
+                        rep.violations.push(viol("SER_SHAPE", format!("inside {}: emitted {text}, want {want}", h.name())));
+                    }
+                    match guarded(|| read_as::<TwoFloat>(h, text.as_bytes(), Api::FromStr, &ideal_reader)) {
+                        Err(msg) => rep.violations.push(viol("PANIC", format!("deserialize inside {} panicked: {msg}", h.name()))),
+                        Ok(ReadOutcome { result: Ok(ts), .. }) => {
+                            if !ts.is_empty() && ts.iter().all(|t| t.hi().to_bits() == c.hi && t.lo().to_bits() == c.lo) {
+                                rep.probes.hit("json_host_rt_ok");
+                            } else {
+                                rep.violations.push(viol("RT_MISMATCH", format!("round trip inside {}: {text} came back as {:?}", h.name(), ts)));
+                            }
+                        }
+                        Ok(ReadOutcome { result: Err(e), .. }) => rep.violations.push(viol(
+                            "RT_REJECTED_VALID",
+                            format!("round trip inside {}: own output {text} rejected: {e}", h.name()),
+                        )),
+                    }
+                }
+            }
         }
     }
 
@@ -488,6 +620,9 @@ pub struct JsonReadCase {
     /// the clean text as stored (harness-made: canonical or alternative rendering of a record)
     pub base: String,
     pub base_kind: String,
+    /// the structure the record is embedded in (the base text is already wrapped accordingly)
+    #[serde(default)]
+    pub host: Host,
     pub faults: Vec<ByteFault>,
     pub api: Api,
     pub plan: ReaderPlan,
@@ -546,15 +681,20 @@ struct ReadOutcome<T> {
     log: u64,
 }
 
-fn read_as<T: for<'de> Deserialize<'de>>(bytes: &[u8], api: Api, plan: &ReaderPlan) -> ReadOutcome<T> {
+fn read_as<T: for<'de> Deserialize<'de>>(host: Host, bytes: &[u8], api: Api, plan: &ReaderPlan) -> ReadOutcome<Vec<T>> {
+    fn finish<'de, T: Deserialize<'de>, R: serde_json::de::Read<'de>>(host: Host, mut de: serde_json::Deserializer<R>) -> Result<Vec<T>, String> {
+        let v = host_from::<T, _>(host, &mut de).map_err(|e| e.to_string())?;
+        de.end().map_err(|e| e.to_string())?;
+        Ok(v)
+    }
     match api {
         Api::FromReader => {
             let mut rd = SimReader::new(bytes, plan);
-            let r = serde_json::from_reader::<_, T>(&mut rd).map_err(|e| e.to_string());
+            let r = finish::<T, _>(host, serde_json::Deserializer::from_reader(&mut rd));
             ReadOutcome { result: r, calls: rd.calls, interrupts: rd.interrupts, hard_fired: rd.hard_fired, eof_fired: rd.eof_fired, log: rd.log.finish() }
         }
         Api::FromSlice => ReadOutcome {
-            result: serde_json::from_slice::<T>(bytes).map_err(|e| e.to_string()),
+            result: finish::<T, _>(host, serde_json::Deserializer::from_slice(bytes)),
             calls: 0,
             interrupts: 0,
             hard_fired: false,
@@ -563,12 +703,30 @@ fn read_as<T: for<'de> Deserialize<'de>>(bytes: &[u8], api: Api, plan: &ReaderPl
         },
         Api::FromStr => {
             let r = match std::str::from_utf8(bytes) {
-                Ok(s) => serde_json::from_str::<T>(s).map_err(|e| e.to_string()),
-                Err(_) => serde_json::from_slice::<T>(bytes).map_err(|e| e.to_string()),
+                Ok(s) => finish::<T, _>(host, serde_json::Deserializer::from_str(s)),
+                Err(_) => finish::<T, _>(host, serde_json::Deserializer::from_slice(bytes)),
             };
             ReadOutcome { result: r, calls: 0, interrupts: 0, hard_fired: false, eof_fired: false, log: 0 }
         }
     }
+}
+
+fn host_probe(h: Host) -> &'static str {
+    match h {
+        Host::Bare => "json_host_bare",
+        Host::Flatten => "json_host_flatten",
+        Host::Untagged => "json_host_untagged",
+        Host::Tagged => "json_host_internally_tagged",
+        Host::Opt => "json_host_option",
+        Host::VecOf => "json_host_vec",
+        Host::MapOf => "json_host_btreemap",
+        Host::Tuple => "json_host_tuple",
+    }
+}
+
+fn words_list(ws: &[(u64, u64)]) -> String {
+    let v: Vec<String> = ws.iter().map(|(h, l)| format!("({}, {})", values::hex(*h), values::hex(*l))).collect();
+    format!("[{}]", v.join(", "))
 }
 
 pub fn execute_read(c: &JsonReadCase) -> LegReport {
@@ -585,22 +743,28 @@ pub fn execute_read(c: &JsonReadCase) -> LegReport {
         Api::FromSlice => "json_api_from_slice",
         Api::FromStr => "json_api_from_str",
     });
+    rep.probes.hit(host_probe(c.host));
 
-    // oracle: derive on Ref through the identical stream
-    let oracle = match guarded(|| read_as::<Ref>(&bytes, c.api, &c.plan)) {
+    // oracle: derive on Ref, inside the same host, through the identical stream
+    let oracle = match guarded(|| read_as::<Ref>(c.host, &bytes, c.api, &c.plan)) {
         Ok(o) => o,
         Err(msg) => {
             rep.violations.push(viol("HARNESS", format!("oracle panicked: {msg}")));
             return rep;
         }
     };
-    let expect: Result<(u64, u64), String> = match &oracle.result {
-        Ok(r) if ref_valid_bits(r.hi.to_bits(), r.lo.to_bits()) => Ok((r.hi.to_bits(), r.lo.to_bits())),
-        Ok(r) => Err(if r.hi.is_finite() && r.lo.is_finite() { "overlap".into() } else { "non-finite".into() }),
+    let expect: Result<Vec<(u64, u64)>, String> = match &oracle.result {
+        Ok(rs) => {
+            let ws: Vec<(u64, u64)> = rs.iter().map(|r| (r.hi.to_bits(), r.lo.to_bits())).collect();
+            match ws.iter().find(|(h, l)| !ref_valid_bits(*h, *l)) {
+                None => Ok(ws),
+                Some((h, l)) => Err(if f64::from_bits(*h).is_finite() && f64::from_bits(*l).is_finite() { "overlap".into() } else { "non-finite".into() }),
+            }
+        }
         Err(e) => Err(e.clone()),
     };
 
-    let got = match guarded(|| read_as::<TwoFloat>(&bytes, c.api, &c.plan)) {
+    let got = match guarded(|| read_as::<TwoFloat>(c.host, &bytes, c.api, &c.plan)) {
         Ok(o) => o,
         Err(msg) => {
             rep.violations.push(viol("PANIC", format!("TwoFloat JSON deserialize panicked: {msg}")));
@@ -623,13 +787,15 @@ pub fn execute_read(c: &JsonReadCase) -> LegReport {
     if c.plan.max_chunk.is_some() && c.api == Api::FromReader {
         rep.faults_fired.hit("reader_short_reads");
     }
-    let got_words = got.result.as_ref().map(|t| (t.hi().to_bits(), t.lo().to_bits())).map_err(|e| e.clone());
+    let got_words: Result<Vec<(u64, u64)>, String> =
+        got.result.as_ref().map(|ts| ts.iter().map(|t| (t.hi().to_bits(), t.lo().to_bits())).collect()).map_err(|e| e.clone());
+    let text = String::from_utf8_lossy(&bytes).into_owned();
 
-    if let Ok((h, l)) = &got_words {
-        if !ref_valid_bits(*h, *l) {
+    if let Ok(ws) = &got_words {
+        if let Some((h, l)) = ws.iter().find(|(h, l)| !ref_valid_bits(*h, *l)) {
             rep.violations.push(viol(
                 "DE_ACCEPTED_INVALID",
-                format!("JSON {:?} decoded to invalid words ({}, {})", String::from_utf8_lossy(&bytes), values::hex(*h), values::hex(*l)),
+                format!("JSON {:?} ({}) decoded to invalid words ({}, {})", text, c.host.name(), values::hex(*h), values::hex(*l)),
             ));
         }
     }
@@ -637,28 +803,23 @@ pub fn execute_read(c: &JsonReadCase) -> LegReport {
         rep.violations.push(viol("DE_SWALLOWED_IO_ERROR", "the reader failed hard, deserialize still returned Ok"));
     }
     match (&expect, &got_words) {
-        (Ok((h, l)), Ok((gh, gl))) => {
-            if h != gh || l != gl {
+        (Ok(want), Ok(have)) => {
+            if want != have {
                 rep.violations.push(viol(
                     "DE_UNFAITHFUL",
-                    format!(
-                        "JSON {:?}: delivered ({}, {}) decoded as ({}, {})",
-                        String::from_utf8_lossy(&bytes),
-                        values::hex(*h),
-                        values::hex(*l),
-                        values::hex(*gh),
-                        values::hex(*gl)
-                    ),
+                    format!("JSON {:?} ({}): delivered {} decoded as {}", text, c.host.name(), words_list(want), words_list(have)),
                 ));
+            } else if want.is_empty() {
+                rep.probes.hit("json_accept_host_without_record");
             } else {
                 rep.probes.hit("json_accept_valid");
             }
         }
-        (Ok((h, l)), Err(e)) => rep.violations.push(viol(
+        (Ok(want), Err(e)) => rep.violations.push(viol(
             "RT_REJECTED_VALID",
-            format!("JSON {:?} holds valid words ({}, {}) but was rejected: {e}", String::from_utf8_lossy(&bytes), values::hex(*h), values::hex(*l)),
+            format!("JSON {:?} ({}) holds valid words {} but was rejected: {e}", text, c.host.name(), words_list(want)),
         )),
-        (Err(why), Ok((gh, gl))) => {
+        (Err(why), Ok(have)) => {
             let class = if why == "overlap" || why == "non-finite" {
                 "DE_ACCEPTED_INVALID"
             } else if why.contains("duplicate field") {
@@ -677,12 +838,7 @@ pub fn execute_read(c: &JsonReadCase) -> LegReport {
             if !rep.violations.iter().any(|v| v.class == class) {
                 rep.violations.push(viol(
                     class,
-                    format!(
-                        "JSON {:?} must be rejected ({why}) but decoded as ({}, {})",
-                        String::from_utf8_lossy(&bytes),
-                        values::hex(*gh),
-                        values::hex(*gl)
-                    ),
+                    format!("JSON {:?} ({}) must be rejected ({why}) but decoded as {}", text, c.host.name(), words_list(have)),
                 ));
             }
         }
@@ -707,25 +863,27 @@ pub fn execute_read(c: &JsonReadCase) -> LegReport {
                 "json_reject_trailing"
             } else if why.contains("invalid type") {
                 "json_reject_invalid_type"
+            } else if why.contains("did not match any variant") {
+                "json_reject_untagged_no_variant"
             } else {
                 "json_reject_syntax_or_other"
             });
         }
     }
     rep.sig.str(&c.base_kind);
+    rep.sig.byte(c.host as u8);
     rep.sig.byte(c.api as u8);
     rep.sig.byte(got_words.is_ok() as u8);
     rep.sig.byte(got.hard_fired as u8);
     rep.sig.byte(got.eof_fired as u8);
-    // abstract error class from the oracle's message (first word) so that the
-    // signature distinguishes rejection paths
+    // abstract error class from the oracle's message so that the signature distinguishes rejection paths
     if let Err(w) = &expect {
         rep.sig.str(w.split(|ch: char| ch.is_ascii_digit() || ch == '`' || ch == '"').next().unwrap_or(""));
     }
     rep.outcome = format!(
         "{} expect {}",
         match &got_words {
-            Ok((h, l)) => format!("Ok({}, {})", values::hex(*h), values::hex(*l)),
+            Ok(ws) => format!("Ok({})", words_list(ws)),
             Err(e) => format!("Err({e})"),
         },
         match &expect {
@@ -734,6 +892,33 @@ pub fn execute_read(c: &JsonReadCase) -> LegReport {
         }
     );
     rep
+}
+
+/// Embed the bare record text in a host structure.
+fn wrap_in_host(r: &mut Rng, host: Host, text: &str, other_text: &str) -> Option<String> {
+    let inject = |r: &mut Rng, member: &str| -> Option<String> {
+        let t = text.trim_start();
+        if !t.starts_with('{') || !t.trim_end().ends_with('}') {
+            return None;
+        }
+        let inner = &t[1..];
+        let body_empty = inner.trim() == "}";
+        Some(if body_empty {
+            format!("{{{member}}}")
+        } else if r.bool() {
+            format!("{{{member},{inner}")
+        } else {
+            let t2 = t.trim_end();
+            format!("{},{member}}}", &t2[..t2.len() - 1])
+        })
+    };
+    match host {
+        Host::Bare | Host::Untagged | Host::Opt => Some(text.to_string()),
+        Host::Flatten => inject(r, "\"id\":7"),
+        Host::Tagged => inject(r, "\"kind\":\"Two\""),
+        Host::VecOf | Host::Tuple => Some(if r.bool() { format!("[{text},{other_text}]") } else { format!("[{other_text},{text}]") }),
+        Host::MapOf => Some(if r.bool() { format!("{{\"a\":{text},\"b\":{other_text}}}") } else { format!("{{\"a\":{other_text},\"b\":{text}}}") }),
+    }
 }
 
 fn num_text(r: &mut Rng, bits: u64) -> String {
@@ -839,13 +1024,22 @@ pub fn generate_read(r: &mut Rng, hi: u64, lo: u64, other: (u64, u64)) -> JsonRe
         22 => (format!("{{\"hi\":{nh},\"lo\":{nl}}} {}", *r.pick(&["x", "{}", ",", "0", "]"])), "trailing_garbage"),
         _ => (serde_json::to_string_pretty(&RefSer { hi: f64::from_bits(wh), lo: f64::from_bits(wl) }).unwrap_or_else(|_| "{}".into()), "object_pretty"),
     };
-    let base_kind = format!("{shape}/{wkind}");
+    let mut host = if r.chance(2, 5) { *r.pick(&HOSTS) } else { Host::Bare };
+    let other_text = serde_json::to_string(&RefSer { hi: f64::from_bits(other.0), lo: f64::from_bits(other.1) }).unwrap_or_else(|_| "{}".into());
+    let base = match wrap_in_host(r, host, &base, &other_text) {
+        Some(b) => b,
+        None => {
+            host = Host::Bare;
+            base
+        }
+    };
+    let base_kind = format!("{shape}/{wkind}/{}", host.name());
     let api = match r.below(4) {
         0 => Api::FromSlice,
         1 => Api::FromStr,
         _ => Api::FromReader,
     };
-    let mut c = JsonReadCase { base, base_kind, faults: vec![], api, plan: ReaderPlan::default() };
+    let mut c = JsonReadCase { base, base_kind, host, faults: vec![], api, plan: ReaderPlan::default() };
     if r.chance(35, 100) {
         return c;
     }
